@@ -320,7 +320,7 @@ pub fn run(tier: Tier, replay_file: Option<Value>) -> ! {
     let max_jobs = tier.pick(3, 3);
     let kinds: Vec<&str> = match tier {
         Tier::Quick => vec!["c", "e"],
-        Tier::Thorough => vec!["s", "c", "p", "f", "e"],
+        Tier::Thorough => vec!["s", "c", "f", "e"], // (a pipeline job with an external stage finishes when the kernel says so: not replayable; pipelines are C11's subject)
     };
     let mut seen: BTreeSet<String> = BTreeSet::new();
     let mut frontier: Vec<(Vec<String>, Value)> = vec![(vec![], json!({"launched": 0, "released": [], "marks": []}))];
